@@ -42,6 +42,7 @@ partial def hintStr : Hint → Sexp
   | .mapping o k v => .list [.atom "map", natStr o, hintStr k, hintStr v]
   | .typeOf cs => .list (.atom "type" :: cs.map natStr)
   | .annotated h vs => .list (.atom "ann" :: hintStr h :: vs.map valeStr)
+  | .generic c bs => .list (.atom "generic" :: natStr c :: bs.map hintStr)
 
 def logicOf : String → Logic
   | "seq" => .seq
